@@ -40,7 +40,6 @@ NOT_APPLICABLE = {
     'C31': 'same as C30 (propagation over std containers and set merging).',
     'C32': "ConcurrentVector's sequential API is ~1300 lines of iterator/std-algorithm code (`std::move`, `move_backward` on custom iterators); only its index arithmetic is extractable and that is claimed under C33.",
     'C33': 'check not built yet (contracts designed in DESIGN.md section 5, proof not closed in this framework yet)',
-    'C34': 'check not built yet (contracts designed in DESIGN.md section 5, proof not closed in this framework yet)',
     'C35': 'check not built yet (contracts designed in DESIGN.md section 5, proof not closed in this framework yet)',
     'C36': 'check not built yet (contracts designed in DESIGN.md section 5, proof not closed in this framework yet)',
     'C37': 'copy constructor loops to `buffersSize_` | arena with 3 buffers | loop to `buffersPos_` | **run** (ASan): SEGV in `memcpy` copying an arena with 3 buffers',
@@ -245,3 +244,20 @@ CLAIMED['C22'] = dict(
     note="A-SC (acquire on claiming RMWs, release on releasing RMWs checked); R/G meta-theorem and the rely (specs/c22_rwlock.c others_act) trusted; fewer than 1000 concurrent readers; "
          "single upgrader as documented. Progress ('a blocked locker always proceeds') is NOT decided beyond the local wake obligation; wait(kWriteBit) is used through its C21 contract.",
     technique="CBMC DFCC function + loop contracts, rely/guarantee via interference before each atomic macro, ghost decomposition of the lock word")
+
+CLAIMED['C34'] = dict(
+    category='proof',
+    text="Rely/guarantee proof (CBMC) of emplaceImpl (behind try_push x2 / try_emplace), try_pop(T&), try_pop() -> OpResult, try_pop_into, try_push_batch, empty/full/size, constructor and "
+         "destructor of MpmcRingBuffer, with head_, tail_ and every slot sequence number fully symbolic 64-bit values and arbitrary interference by any number of other producers and consumers "
+         "before every atomic access. Per-slot Vyukov invariant (slot j is free for position s / claimed by the producer of s / published for p / claimed by the consumer of p, with the liveness "
+         "of its object and the bounds head <= s < head+N, p < tail <= p+N). Obligations: every write of this thread preserves the invariant for every slot and keeps head <= tail <= head+capacity; "
+         "a position is claimed (CAS on tail_/head_) only while its slot is free for / holds the published element of exactly that position; slot storage is constructed, moved from and destroyed "
+         "only between the claiming CAS and the release store that hands the slot on; seq is written only by the claimant, with p+1 (publish) or p+capacity (free); exactly one object is constructed "
+         "per successful push and destroyed per successful pop, the popped value is the one published in the claimed position; failed (fail-fast) attempts change nothing; seq is loaded with "
+         "acquire and stored with release; quiescent: push succeeds iff not full, pop iff non-empty and returns the oldest, the batch pushes min(count, free); the destructor destroys exactly the "
+         "remaining elements.",
+    note="A-SC; the rely (specs/c34_mpmc.c others_act) and the R/G meta-theorem are trusted; exactly-once/FIFO follow from unique claims (atomic RMW axiom) + the ownership obligations proved here, "
+         "the abstract queue is not carried as ghost state. Positions below 2^62 (no counter wrap). Whole proof at power-of-two buffer sizes (2, 4, 16; thorough: 8, 64); for exact "
+         "(non-power-of-two) sizes only wrapIndex == i % kBufferSize and the modular facts are verified (a 64-bit remainder inside the R/G proof did not finish). try_push_batch at kBufferSize 2 "
+         "only. The slots_ array is rendered by two tracked slots (one arbitrary, one prophesied as the slot operated on) plus an unconstrained junk slot.",
+    technique="CBMC DFCC contracts, rely/guarantee via interference before each atomic macro, per-slot sequence-protocol invariant with ownership and lifetime ghosts, prophecy variable for the active slot")
